@@ -39,6 +39,10 @@ pub struct GraphDesc {
     pub panic_at: Option<u32>,
     #[serde(default)]
     pub shape: String,
+    /// call the scheduler hook from inside model code (C05: user code runs inside the windows
+    /// between the checker's own steps)
+    #[serde(default)]
+    pub yield_in_model: bool,
 }
 
 #[derive(Clone, Debug, Hash, PartialEq, Eq, PartialOrd, Ord)]
@@ -108,12 +112,18 @@ impl Model for GM {
         }
     }
     fn next_state(&self, s: &S, a: u16) -> Option<S> {
+        if self.d.yield_in_model {
+            stateright::verif_hooks::yield_point("model.next_state");
+        }
         if self.d.panic_at == Some(s.0) {
             panic!("planted panic in model code at state {}", s.0);
         }
         self.d.edges[s.0 as usize][a as usize].map(S)
     }
     fn within_boundary(&self, s: &S) -> bool {
+        if self.d.yield_in_model {
+            stateright::verif_hooks::yield_point("model.within_boundary");
+        }
         self.inb[s.0 as usize]
     }
     fn properties(&self) -> Vec<Property<Self>> {
@@ -647,6 +657,7 @@ pub fn build_graph(
         props,
         panic_at: None,
         shape: format!("{:?}", shape),
+        yield_in_model: false,
     }
 }
 
@@ -692,5 +703,6 @@ pub fn big_graph(seed: u64, n: u32, deg: u32, props: Vec<PropDesc>) -> GraphDesc
         props,
         panic_at: None,
         shape: "Big".to_string(),
+        yield_in_model: false,
     }
 }
